@@ -253,6 +253,32 @@ func largeNumberStrings(emit func(name, class string)) {
 	}
 }
 
+// bitFlipStrings: every single-bit flip of every character of some good strings. A flip that only changes the
+// letter case of a token letter is a case variant (judged by the folding reference); every other flip yields a
+// string that says something the parser must not approximate (look-alike control bytes, neighbouring characters).
+func bitFlipStrings(emit func(name, class string)) {
+	for _, g := range []string{"OCRA-1:HOTP-SHA1-6:QN08", "OCRA-1:HOTP-SHA256-8:C-QA10-PSHA256-S064-T30S", "OCRA-1:HOTP-SHA512-10:QH10-PSHA1-T2H"} {
+		b := []byte(g)
+		for i := range b {
+			for bit := uint(0); bit < 8; bit++ {
+				x := append([]byte{}, b...)
+				x[i] ^= 1 << bit
+				sname := string(x)
+				if _, ok := ref.ParseSuiteNameFold(sname); ok {
+					emit(sname, "case-variant")
+					continue
+				}
+				// token order and repetition are not judged (the property does not speak about them): a flip that
+				// only produces another arrangement of valid tokens is skipped
+				if parts := strings.Split(sname, ":"); len(parts) == 3 && parts[0] == "OCRA-1" && strings.EqualFold(parts[1], strings.Split(g, ":")[1]) && ref.ValidDataTokens(parts[2]) {
+					continue
+				}
+				emit(sname, "malformed:bit-flip")
+			}
+		}
+	}
+}
+
 func malformedStrings(emit func(name, kind string)) {
 	good := []string{"OCRA-1:HOTP-SHA1-6:QN08", "OCRA-1:HOTP-SHA256-8:C-QN10-PSHA1", "OCRA-1:HOTP-SHA512-8:QN08-T1M", "OCRA-1:HOTP-SHA1-6:C-QN08-PSHA1-S-T1"}
 	for _, g := range good {
@@ -356,6 +382,11 @@ func init() {
 				}
 			})
 			largeNumberStrings(func(n, class string) { cases = append(cases, nameCase{Name: n, Class: class}) })
+			bitFlipStrings(func(n, class string) {
+				if !seen[n] {
+					cases = append(cases, nameCase{Name: n, Class: class})
+				}
+			})
 			// case variants, each followed by another spelling of the same suite (history: a memo keyed by a
 			// folded form would hand the first spelling's name to the second)
 			rngCV := c.RNG.Fork(15)
